@@ -104,6 +104,14 @@ def run(ids, props, tier):
             first = [l for l in out.splitlines() if l.startswith("failure")][:1]
             meta["detected_by"][pid] = {"tier": tier, "exit": rc, "detected": rc == 1, "secs": round(time.time() - t0, 1), "first_failure": (first[0][:300] if first else "")}
             json.dump(meta, open(sd + "/meta.json", "w"), indent=1)
+            # keep the shrunk reproduction of the own check as a regression input (replayed first by both tiers)
+            if pid == meta["breaks_property"] and rc == 1:
+                rdir = d + "/out/replays"
+                reps = sorted(f for f in os.listdir(rdir) if f.endswith(".json")) if os.path.isdir(rdir) else []
+                if reps:
+                    cdir = os.path.join(HERE, "corpus", pid)
+                    os.makedirs(cdir, exist_ok=True)
+                    shutil.copy(os.path.join(rdir, reps[0]), os.path.join(cdir, f"seeded-{sid}.json"))
         det = [p for p, v in meta["detected_by"].items() if v["detected"]]
         own = meta["detected_by"].get(meta["breaks_property"], {}).get("detected")
         print(f"{sid:28s} own={'CAUGHT' if own else 'MISSED'} detected_by={','.join(sorted(det))}", flush=True)
